@@ -59,7 +59,9 @@ def _eigendecomposition(A, rank=DEFAULT_RANK):
     if isinstance(rank, float):
         # automatically choose rank to capture some percent of the eigenvalues
         target = summed[-1] * rank
-        p = searchsorted(summed, target)
+        # number of leading eigenvalues needed to reach the target (index of the first
+        # cumulative sum >= target, plus one)
+        p = min(searchsorted(summed, target) + 1, len(summed))
         if p == 0:
             logger.warning(
                 f"Low variance percentage {rank:%} indicated rank=0. "
@@ -69,7 +71,7 @@ def _eigendecomposition(A, rank=DEFAULT_RANK):
     else:
         p = min(rank, p)
     if (isinstance(rank, float) and rank < 1) or rank < len(summed):
-        frac = summed[p] / summed[-1]
+        frac = summed[p - 1] / summed[-1]
         logger.info(f"Recovering {frac:%} variance in eigendecomposition.")
     s_ = s[-p:]
     v_ = v[:, -p:]
